@@ -29,7 +29,7 @@ def plan(tier, seed):
     specs = []
     for i in range(12):
         specs.append({"mode": "inproc", "optimize": i % 2 == 1, "nseed": nseed, "rseed": seed * 1000 + i,
-                      "registry": i % 3 != 2})
+                      "registry": i % 3 != 2, "ntail": 22 if tier == "quick" else 220})
     ncli = 120 if tier == "quick" else 1500
     for i in range(4):
         specs.append({"mode": "cli", "opt_cli": i % 2 == 1, "n": ncli, "rseed": seed * 1000 + 500 + i})
@@ -37,7 +37,7 @@ def plan(tier, seed):
 
 
 def minimums(tier):
-    return {"inproc.O0.decodes": 12000, "inproc.O1.decodes": 12000, "prefix.O0": 1500, "prefix.O1": 1500,
+    return {"inproc.O0.decodes": 12000, "inproc.O1.decodes": 12000, "prefix.O0": 1500, "prefix.O1": 1500, "prefix.tail": 8000,
             "datastream.invariant_evals": 100000, "datastream.get_mem_evals": 100000,
             "cli.O0.runs": 200, "cli.O1.runs": 200, "cli.prefix_runs": 60, "steps.counted": 1000000}
 
@@ -47,6 +47,39 @@ def small_pel(rng, u, reg):
         pel = gen.gen_pel(rng, u, reg=reg, kinds=SMALL_KINDS, nopt=rng.choice([1, 2, 3, 4, 5]),
                           creator=rng.choice("OOOBMHX"), primary=rng.random() < 0.8)
         if len(pel.encode()) <= 520:
+            return pel
+
+
+TAILS = ["src-fru", "src-pce", "src-mru", "src-loc", "EH", "LP", "MT", "UD", "ED", "HEX", "UNK"]
+
+
+def tail_pel(rng, u, reg, want):
+    """A small well-formed PEL whose LAST section is of the wanted kind (for SRCs: whose last callout ends in the
+    wanted substructure)."""
+    while True:
+        pel = small_pel(rng, u, reg)
+        c = pel.creator
+        if want.startswith("src-"):
+            for _ in range(200):
+                s = pm.gen_src(rng, u, False, c, ncallouts=rng.choice([1, 2, 3]), reg=reg)
+                last = s.m["callouts"][-1]
+                shape = "mru" if last.mru is not None else "pce" if last.pce is not None else "fru" if last.fru is not None else "loc"
+                if shape == want[4:] or (want == "src-loc" and shape == "fru" and last.fru["flags"] & 0x0F == 0):
+                    break
+            else:
+                continue
+        elif want == "EH":
+            s = pm.gen_eh(rng, u, c)
+        elif want == "LP":
+            s = pm.gen_lp(rng, u, c)
+        elif want == "MT":
+            s = pm.gen_mt(rng, u, c)
+        elif want in ("UD", "ED"):
+            s = gen.gen_user_section(rng, u, c, ext=want == "ED")
+        else:
+            s = pm.sec_generic(rng, u, rng.choice([b"DH", b"SW", b"CH"]) if want == "HEX" else rng.choice([b"XX", b"ID", b"PE"]))
+        pel.sections.append(s)
+        if len(pel.encode()) <= 700:
             return pel
 
 
@@ -173,6 +206,22 @@ def run(spec, ctx):
             ctx.case(d, True)
             ctx.see("edit", tag[0])
             hostile_decode(d, ctx, tag, olevel, cfgs=cfgs)
+    # tail sweep: many more seeds, each ending in a chosen kind of section / callout substructure, cut 1..48 bytes short
+    # (a decoder that clamps instead of failing at the end of input only shows when nothing follows the structure)
+    for k in range(spec.get("ntail", 0)):
+        want = TAILS[(k + spec["shard"]) % len(TAILS)]
+        pel = tail_pel(rng, u, reg, want)
+        data = pel.encode()
+        o = harness.decode(data, cfgs[0][1])
+        if o.kind != "doc":
+            ctx.violation("C05/seed-not-decoded", "seed PEL not decoded: %r" % (o.exc,), data=data)
+            continue
+        ctx.see("tail.kind", want)
+        for cut in range(1, min(48, len(data) - 1) + 1):
+            d = data[:len(data) - cut]
+            ctx.case(d, True)
+            ctx.count("prefix.tail")
+            hostile_decode(d, ctx, ("tail-prefix", want, cut), olevel, prefix_of=len(data), cfgs=cfg_every)
     for tag, d in mutate.random_strings(rng, 150):
         ctx.case(d, True)
         hostile_decode(d, ctx, tag, olevel, cfgs=cfgs)
